@@ -1272,10 +1272,12 @@ class ProcessPoolExecutor(Executor):
             self._pending_work_items[self._queue_count] = w
             self._work_ids.put(self._queue_count)
             self._queue_count += 1
+
+            # Spawn the missing workers before waking up the queue management
+            # thread, so that it watches their sentinels when it waits again.
+            self._ensure_executor_running()
             # Wake up queue management thread
             self._executor_manager_thread_wakeup.wakeup()
-
-            self._ensure_executor_running()
             return f
 
     submit.__doc__ = Executor.submit.__doc__
